@@ -16,6 +16,7 @@
 (*       projective output (X, Y, D), D # 0.                               *)
 (* Rows:  swu  [g, u, X, Y, D, x1, s, sq, xo, yo]                          *)
 (*        iso  [g, X, Y, Z]   -- output of iso_map / map_to_curve: on E    *)
+(*        isohom [g, X, Y, X2, Y2] -- affine iso(P + Q) and iso(P) + iso(Q)*)
 (***************************************************************************)
 EXTENDS StdConstants, Json, IOUtils
 
@@ -75,7 +76,16 @@ IsoOK(r) ==
   IN /\ IsE(d, r.X) /\ IsE(d, r.Y) /\ IsE(d, r.Z) /\ r.Z # EZero(d)
      /\ EMul(ESqr(r.Y), r.Z) = EAdd(EMul(ESqr(r.X), r.X), EMul(b, EMul(z2, r.Z)))
 
-RowOK(r) == CASE r.op = "swu" -> SwuOK(r) [] r.op = "iso" -> IsoOK(r) [] OTHER -> FALSE
+\* the isogeny is a group homomorphism: iso(P + Q) and iso(P) + iso(Q) (both evaluated by the library on two
+\* distinct SWU images P, Q with its generic chord addition, which does not involve the curve coefficient)
+\* are the same affine point, on E / E'
+HomOK(r) ==
+  LET d == r.g b == IF d = 1 THEN <<N(4)>> ELSE <<N(4), N(4)>> IN
+  /\ IsE(d, r.X) /\ IsE(d, r.Y) /\ IsE(d, r.X2) /\ IsE(d, r.Y2)
+  /\ r.X = r.X2 /\ r.Y = r.Y2
+  /\ ESqr(r.Y) = EAdd(EMul(ESqr(r.X), r.X), b)
+
+RowOK(r) == CASE r.op = "swu" -> SwuOK(r) [] r.op = "iso" -> IsoOK(r) [] r.op = "isohom" -> HomOK(r) [] OTHER -> FALSE
 
 Init == i = 0
 Next == \/ i = 0 /\ i' \in 1..(IF Stride < Len(Rows) THEN Stride ELSE Len(Rows))
